@@ -65,7 +65,10 @@ pub open spec fn gen_spec(o: Outcome) -> Option<Seq<char>> {
         Ok(_) => Some(expr + exps_text(o.testcase.expectations@, o.testcase.expectations@.len() as int) + opt_text(exit_text(o.output.exit_code))),
         Err(TestCaseError::MalformedOutput(diff)) => Some(expr + diff_text(o.escaping, diff.lines@, diff.lines@.len() as int) + opt_text(exit_text(o.output.exit_code))),
         Err(TestCaseError::InvalidExitCode { actual, expected }) => {
-            let out = out_string(Seq::empty(), o.escaping, o.output.stdout.0@, lines_of(o.output.stdout.0@), lines_of(o.output.stdout.0@).len() as int);
+            // the stream the test case is VALIDATED against (TestCase::validate: stderr iff output_stream == stderr), so that the written
+            // block passes against "that same output"
+            let bytes = if o.testcase.config.output_stream == Some(OutputStreamControl::Stderr) { o.output.stderr.0@ } else { o.output.stdout.0@ };
+            let out = out_string(Seq::empty(), o.escaping, bytes, lines_of(bytes), lines_of(bytes).len() as int);
             let out2 = if out.len() > 0 && out.last() != '\n' { out + no_eol_marker() + seq!['\n'] } else { out };
             Some(expr + out2 + seq!['['] + int_text(actual as int) + seq![']', '\n'])
         },
